@@ -61,7 +61,7 @@ func MatchMain(eng *Engine) (bind inputrc.Bind, command func(), prefix bool) {
 	}
 
 	// Find the target action, macro or command.
-	bind, prefix, read, _ := eng.dispatchKeys(binds)
+	bind, prefix, read, matched := eng.dispatchKeys(binds)
 
 	if !bind.Macro {
 		command = eng.commands[bind.Action]
@@ -70,9 +70,15 @@ func MatchMain(eng *Engine) (bind inputrc.Bind, command func(), prefix bool) {
 	// In the main menu, all keys that have been tested against
 	// the binds will be dropped after command execution (whether
 	// or not there's actually a command to execute).
-	if prefix {
+	switch {
+	case prefix:
 		core.MatchedPrefix(eng.keys, read...)
-	} else {
+	case bind.Action != "" && len(matched) > 0 && len(matched) < len(read):
+		// A shorter sequence is bound and the last key has ruled out all the
+		// longer ones: this key is not part of the sequence, and must be
+		// dispatched on its own after the command has run, not dropped.
+		core.MatchedKeys(eng.keys, matched, read[len(matched):]...)
+	default:
 		core.MatchedKeys(eng.keys, read)
 	}
 
